@@ -214,14 +214,23 @@ def _check_script_reader(ctx):
         env0 = {params[0]: T.clsref(SCRIPT), params[1]: ev0.new_stream(D0)}
         res, env_pre, facts_pre = ev0.eval_fragment('script.Script.parse', pre, env0)
         # the declared length comes from read_varint on the same stream
-        lens = [k for k, v in env_pre.items() if T.contains(v, lambda x: T.is_op(x, 'INT') or T.is_op(x, 'GETITEM'))
-                and k != params[1]]
-        cnts = [k for k, v in env_pre.items() if v == T.const(0)]
-        lists = [k for k, v in env_pre.items() if v == T.lst([])]
-        if len(lens) != 1 or len(cnts) != 1 or len(lists) != 1:
+        # loop test `count < length` names the counter and the declared length; the command list is the empty list
+        # the body appends to; the stream is the stream-valued variable the body reads from
+        tst = loop.test
+        if not (isinstance(tst, ast.Compare) and len(tst.ops) == 1 and isinstance(tst.ops[0], ast.Lt)
+                and isinstance(tst.left, ast.Name) and isinstance(tst.comparators[0], ast.Name)):
+            raise AnalysisError('C19.READER', 'the loop test of Script.parse is not `<counter> < <declared length>`: %s' % ast.unparse(tst))
+        cnts, lens = [tst.left.id], [tst.comparators[0].id]
+        appended = {n.func.value.id for n in ast.walk(loop) if isinstance(n, ast.Call) and isinstance(n.func, ast.Attribute)
+                    and n.func.attr == 'append' and isinstance(n.func.value, ast.Name)}
+        lists = [k for k, v in env_pre.items() if _strip_raise(v) == T.lst([]) and k in appended]
+        body_names = {n.id for n in ast.walk(loop) if isinstance(n, ast.Name)}
+        streams = [k for k, v in env_pre.items() if T.is_op(_strip_raise(v), 'STREAM') and k in body_names]
+        if env_pre.get(cnts[0]) is None or _strip_raise(env_pre[cnts[0]]) != T.const(0) or len(lists) != 1 or len(streams) != 1 \
+                or lens[0] not in env_pre:
             raise AnalysisError('C19.READER', 'cannot identify the loop state of Script.parse (length=%s, count=%s, '
-                                              'cmds=%s)' % (lens, cnts, lists))
-        LEN, CNT, CMDS, STREAM = lens[0], cnts[0], lists[0], params[1]
+                                              'cmds=%s, stream=%s)' % (lens, cnts, lists, streams))
+        LEN, CNT, CMDS, STREAM = lens[0], cnts[0], lists[0], streams[0]
         ob.note('loop state: length=%s count=%s cmds=%s stream=%s' % (LEN, CNT, CMDS, STREAM))
         # loop test: count < length
         evt = Evaluator(p, 'ecdsa')
@@ -292,6 +301,7 @@ def _check_script_reader(ctx):
             terms_ = [v for k, v in env2.items() if k != STREAM]
             obr.require(_read_ok(ev, r, n, terms_, known_at(facts2, ())),
                         'opcode byte read is used without a length check', '%s:%d' % (fi.module.relpath, line))
+    _check_early_returns(ctx, fi, pre, LEN)
     # epilogue: count != length is refused, result wraps the command list
     with ctx.obligation('C19.ACCT-FINAL', 'Script.parse epilogue', None, fi.where) as ob:
         ev = Evaluator(p, 'ecdsa')
@@ -318,6 +328,120 @@ def _check_script_reader(ctx):
         v, f = ev.call_function('helper.read_varint', [ev.new_stream(D)])
         same_term(ob, _strip_raise(env_pre[LEN]), T.subst(_strip_raise(v), {D: D0}),
                   'declared script length is read with read_varint from the same stream', fi.where)
+
+
+def _bytes_evidence(part, raw, off, n_total, known):
+    """Is the constant `part` known to sit at raw[off:off+len(part)]?  ('yes' | 'no' | 'unknown')"""
+    c = part[1]
+    need = set(range(off, off + len(c)))
+    mentions = False
+    for k in known:
+        g = k[2] if T.is_op(k, 'BOOL') else k
+        if T.is_op(g, 'STARTSWITH') and g[2] == raw and T.is_const(g[3]) and isinstance(g[3][1], bytes):
+            mentions = True
+            pre = g[3][1]
+            for i in list(need):
+                if i < len(pre) and pre[i] == c[i - off]:
+                    need.discard(i)
+        elif T.is_op(g, 'ENDSWITH') and g[2] == raw and T.is_const(g[3]) and isinstance(g[3][1], bytes):
+            mentions = True
+            suf = g[3][1]
+            base = n_total - len(suf)
+            for i in list(need):
+                if i >= base and suf[i - base] == c[i - off]:
+                    need.discard(i)
+        elif T.is_op(g, 'EQ'):
+            for x, y in ((g[2], g[3]), (g[3], g[2])):
+                if T.is_const(y) and isinstance(y[1], bytes) and T.is_op(x, 'SLICE') and x[2] == raw and T.is_const(x[3]) \
+                        and T.is_const(x[4]) and isinstance(x[3][1], int) and isinstance(x[4][1], int):
+                    mentions = True
+                    a = x[3][1]
+                    for i in list(need):
+                        if a <= i < x[4][1] and i - a < len(y[1]) and y[1][i - a] == c[i - off]:
+                            need.discard(i)
+                if T.is_const(y) and isinstance(y[1], int) and T.is_op(x, 'GETITEM') and x[2] == raw and T.is_const(x[3]):
+                    mentions = True
+                    i = x[3][1] + n_total if x[3][1] < 0 else x[3][1]
+                    if i in need and y[1] == c[i - off]:
+                        need.discard(i)
+                if x == raw and T.is_const(y) and isinstance(y[1], bytes) and len(y[1]) == n_total:
+                    mentions = True
+                    for i in list(need):
+                        if y[1][i] == c[i - off]:
+                            need.discard(i)
+        elif T.contains(g, lambda z: z == raw) and not (T.is_op(g, 'EQ') and T.len_(raw) in g[2:]):
+            mentions = 'other'
+    if not need:
+        return 'yes', ()
+    return ('unknown' if mentions == 'other' else 'no'), tuple(sorted(need))
+
+
+def _check_early_returns(ctx, fi, pre, LEN):
+    """A return of Script.parse in front of its decoding loop (a fast path) must hand out a script whose serialisation
+    is exactly the bytes that were declared and read: otherwise input that merely resembles a template parses into a
+    different script (or malformed input is accepted)."""
+    p = ctx.p
+    with ctx.obligation('C19.EARLY', 'Script.parse returns before the decoding loop', None, fi.where) as ob:
+        summ = dict(__import__('sa.externals', fromlist=['x']).DEFAULT_SUMMARIES)
+        L = S('declared_length', type='int')
+        summ['helper.read_varint'] = lambda ev_, fi_, env, facts: (L, facts)
+        ev = Evaluator(p, 'ecdsa', summaries=summ)
+        D0 = S('D0', type='bytes')
+        params = fi.params
+        res, env_pre, facts_pre = ev.eval_fragment('script.Script.parse', pre, {params[0]: T.clsref(SCRIPT), params[1]: ev.new_stream(D0)})
+        early = [] if res is FALL else [(cs, leaf) for cs, leaf in normal_leaves(res) if leaf is not FALL and leaf != FALL]
+        if not early:
+            ob.require(True, 'no return before the decoding loop', fi.where)
+            return
+        raws = [r for r, n, fq, line in ev.reads if n == L]
+        if len(raws) != 1:
+            ob.undecided('Script.parse returns before its decoding loop, but the read of the declared number of bytes was not '
+                         'recognised (%d candidate reads)' % len(raws), fi.where)
+            return
+        raw = raws[0]
+        for cs, leaf in early:
+            known = known_at(facts_pre, cs)
+            n = None
+            for k in known:
+                if T.is_op(k, 'EQ') and T.len_(raw) in k[2:]:
+                    o = k[2] if k[3] == T.len_(raw) else k[3]
+                    if T.is_const(o) and isinstance(o[1], int):
+                        n = o[1]
+            if n is None or T.tag(leaf) != 'obj':
+                ob.undecided('an early return of Script.parse is not tied to a fixed script size; cannot compare it with the bytes read: %s'
+                             % T.show(leaf, maxdepth=3), fi.where)
+                continue
+            R = S('raw%d' % n, type='bytes', len=n)
+            leaf_n = T.subst(leaf, {raw: R})
+            known_n = {T.subst(k, {raw: R}) for k in known}
+            e2 = Evaluator(p, 'ecdsa')
+            ser, _ = e2.call_function('script.Script.raw_serialize', [leaf_n])
+            ser = _strip_raise(ser)
+            if T.length_of(ser) != n:
+                if T.length_of(ser) is None:
+                    ob.undecided('serialisation of the early-returned script is not computable: %s' % T.show(ser, maxdepth=4), fi.where)
+                else:
+                    ob.require(False, 'an early return hands out a script of %d serialised bytes for %d bytes of input'
+                               % (T.length_of(ser), n), fi.where, found=T.show(leaf_n, maxdepth=4))
+                continue
+            parts = list(ser[2:]) if T.is_op(ser, 'CAT') else [ser]
+            off = 0
+            for part in parts:
+                l = T.length_of(part)
+                if part == T.slice_(R, T.const(off), T.const(off + l)):
+                    ob.require(True, 'bytes [%d, %d) are the input bytes' % (off, off + l), fi.where)
+                elif T.is_const(part) and isinstance(part[1], bytes):
+                    verdict, missing = _bytes_evidence(part, R, off, n, known_n)
+                    if verdict == 'unknown':
+                        ob.undecided('%d-byte fast path: cannot tell whether input bytes %s are compared with the template' % (n, list(missing)), fi.where)
+                    else:
+                        ob.require(verdict == 'yes', 'the %d-byte fast path of Script.parse returns a script whose serialisation has %s at '
+                                   'offset(s) %s, but those input bytes are never compared with it: input that only resembles the '
+                                   'template parses into a different script, malformed input of that shape is accepted'
+                                   % (n, part[1].hex(), list(missing)), fi.where, found=T.show(leaf_n, maxdepth=4))
+                else:
+                    ob.undecided('%d-byte fast path: serialised part %s is neither input bytes nor a constant' % (n, T.show(part, maxdepth=3)), fi.where)
+                off += l
 
 
 def _check_serialize(ctx):
